@@ -28,7 +28,7 @@ def run(tier, seed, only=None):
     verdicts = C.Verdicts(PROP)
     g = C.run_tlc("Gen_Project", "Gen_Project_disc", workers=4, timeout=900, heap="8g")
     cases = g.json_lines("REPLAY")
-    if len(cases) < 4000:
+    if len(cases) < 14000:
         raise C.ToolError("too few discovery cases: %d" % len(cases))
     total = len(cases)
     rnd = random.Random(seed)
@@ -38,7 +38,7 @@ def run(tier, seed, only=None):
         pick = []
         rnd.shuffle(cases)
         for c in cases:
-            k = (c["pc"], c["attr"], c["pos"], c["parsable"])
+            k = (c["pc"], c["attr"], c["pos"], c["parsable"], c.get("nm", "plain"))
             if k not in seenk:
                 seenk.add(k)
                 pick.append(c)
